@@ -11,7 +11,7 @@
    compositional interpretation (modelling assumption M1).
    [wf nq nc c]: indices in range; Reset has one qubit and no clbit; Measure one qubit, one clbit. *)
 From CKT Require Import Common.Base Common.Circ Common.Herbrand Model.ResetPasses
-  Proofs.ResetPassesP Proofs.ResetPassesSem Proofs.ResetPassesDag Proofs.ResetPassesDropped.
+  Proofs.ResetPassesP Proofs.ResetPassesSem Proofs.ResetPassesDag Proofs.ResetPassesDropped Proofs.ResetPassesSite.
 
 (* ------------------------------------------------------------------------------------------------
    (1) every pass deletes only Reset instructions; all other instructions stay, in order *)
@@ -136,6 +136,31 @@ Theorem c12_dag_equiv_consolidate_rest : forall nq nc c, wf nq nc c = true ->
 Proof. exact dag_equiv_consolidate_rest. Qed.
 
 (* ------------------------------------------------------------------------------------------------
+   (4) the call sites inside generate_cutting_experiments, on one subexperiment c = pre ++ [m]
+   (m = the last appended measurement).  [subexperiment_resets nq placeholder c]: the pipeline in the
+   final loop and, when the sub-observable is the identity ([placeholder]), _remove_final_resets
+   already before the placeholder measurement m is appended. *)
+Theorem c12_site_only_resets : forall nq ph pre m,
+  del_resets (pre ++ [m]) (subexperiment_resets nq ph (pre ++ [m])).
+Proof. exact subexperiment_resets_only_resets. Qed.
+
+Theorem c12_site_semantics_observed : forall nq nc c, wf nq nc c = true ->
+  hc (denote nq nc (subexperiment_resets nq false c)) = hc (denote nq nc c) /\
+  forall q, ~ In q (final_dropped nq (remove_resets_in_zero_state nq c)) ->
+    wire (denote nq nc (subexperiment_resets nq false c)) q = wire (denote nq nc c) q.
+Proof. exact site_semantics_observed. Qed.
+
+(* placeholder site: every classical bit EXCEPT the placeholder's own bit k is unchanged.  The bit k
+   itself does change (the measured qubit lost its trailing reset); reconstruction ignores it
+   (that masking is C01/C19's business, not proved here). *)
+Theorem c12_site_semantics_placeholder : forall nq nc pre m k, wf nq nc (pre ++ [m]) = true ->
+  iop m = Measure -> ics m = [k] ->
+  forall j, j <> k ->
+    nth j (hc (denote nq nc (subexperiment_resets nq true (pre ++ [m])))) None
+    = nth j (hc (denote nq nc (pre ++ [m]))) None.
+Proof. exact site_semantics_placeholder. Qed.
+
+(* ------------------------------------------------------------------------------------------------
    non-vacuity: 2 qubits / 1 clbit; h = Gate 0, cx = Gate 1.
    resets leading, trailing, repeated, around a two-qubit gate on either argument,
    separated by barrier / measurement *)
@@ -194,6 +219,18 @@ Example c12_ex_exception :
   hc (denote 2 1 (remove_final_resets 2 ex2)) = hc (denote 2 1 ex2).
 Proof. repeat split; try reflexivity. vm_compute. discriminate. Qed.
 
+(* the placeholder call site (the reviewer's probe, partition of qubit 0): h q0; cx; reset q0, then the
+   placeholder measure q0 -> c1 (c0 = a qpd measurement of q1).  The placeholder bit's term changes,
+   the other bit's does not. *)
+Definition ex3 : circ := [H0; CX 0 1; M 1 0; R 0; M 0 1].
+Example c12_ex_site :
+  wf 2 2 ex3 = true /\
+  subexperiment_resets 2 true ex3 = [H0; CX 0 1; M 1 0; M 0 1] /\
+  subexperiment_resets 2 false ex3 = ex3 /\
+  nth 0 (hc (denote 2 2 (subexperiment_resets 2 true ex3))) None = nth 0 (hc (denote 2 2 ex3)) None /\
+  nth 1 (hc (denote 2 2 (subexperiment_resets 2 true ex3))) None <> nth 1 (hc (denote 2 2 ex3)) None.
+Proof. repeat split; try reflexivity. vm_compute. discriminate. Qed.
+
 (* ------------------------------------------------------------------------------------------------
    facts regenerated from the source on every run *)
 From CKT Require Import Extracted.Facts.
@@ -205,10 +242,17 @@ Theorem c12_facts_pipeline :
   reset_pipeline_order = ["_remove_resets_in_zero_state"; "_remove_final_resets"; "_consolidate_resets"].
 Proof. reflexivity. Qed.
 
-(* [reversed scan?; #break (early exits); #del; #loops] of the three list passes, as modelled *)
+(* [reversed scan?; #del; #loops] of the three list passes, as modelled (the early-exit breaks are
+   modelled too but not pinned: they are pure optimisations) *)
 Theorem c12_facts_scans :
-  reset_scan_shapes = [("_consolidate_resets", [0; 0; 1; 3]); ("_remove_resets_in_zero_state", [0; 1; 1; 3]);
-                       ("_remove_final_resets", [1; 1; 1; 3])].
+  reset_scan_shapes = [("_consolidate_resets", [0; 1; 3]); ("_remove_resets_in_zero_state", [0; 1; 3]);
+                       ("_remove_final_resets", [1; 1; 3])].
+Proof. reflexivity. Qed.
+
+(* every call of a reset pass in generate_cutting_experiments, as modelled by [subexperiment_resets] *)
+Theorem c12_facts_sites :
+  reset_call_sites = [("_remove_final_resets", "guarded"); ("_remove_resets_in_zero_state", "loop");
+                      ("_remove_final_resets", "loop"); ("_consolidate_resets", "loop")].
 Proof. reflexivity. Qed.
 
 (* the DAG operations the wire-level models stand for *)
@@ -241,6 +285,10 @@ Print Assumptions c12_dag_rfr_fix_is_fixed_point.
 Print Assumptions c12_dag_equiv_final.
 Print Assumptions c12_dag_equiv_consolidate.
 Print Assumptions c12_dag_equiv_consolidate_rest.
+Print Assumptions c12_site_only_resets.
+Print Assumptions c12_site_semantics_observed.
+Print Assumptions c12_site_semantics_placeholder.
 Print Assumptions c12_facts_pipeline.
+Print Assumptions c12_facts_sites.
 Print Assumptions c12_facts_scans.
 Print Assumptions c12_facts_dag.
